@@ -68,6 +68,12 @@ impl PropCase for Cap {
                 lg
             }));
             logs.push(("F3", run_f3(buf, &s, 0).log));
+            logs.push(("F1-from_buf", {
+                let mut d = new_decoder_from_buf(buf);
+                let mut lg = Log::new();
+                feed(d.as_mut(), &s, 0, &mut lg);
+                lg
+            }));
         }
         {
             let env = ReaderEnv::from_bytes(&s);
